@@ -60,6 +60,21 @@ Theorem C17_tfr : forall h, wf_from false false h = true ->
 Proof. exact (fun h => tfr_ok h false false tfr0 sp0 sp0 tfr_inv_init). Qed.
 Print Assumptions C17_tfr.
 
+(* ExtendedToStreamDecorator before the run is started: its own tag context takes every call exactly
+   as the other results do, from any state - started or not (tags()/current_tags/stopTest need no
+   startTestRun; the implicit start at the first startTest/outcome keeps the tags) ... *)
+Theorem C17_e2s_context : forall s op, e_ctx (fst (e2s_step s op)) = istep (e_ctx s) op.
+Proof. exact e2s_ctx_step. Qed.
+Print Assumptions C17_e2s_context.
+
+(* ... and what the stream pair hands to the wrapped result shows, at every outcome, the tags current
+   in the decorator - for every well-formed history, with or without a startTestRun anywhere in it *)
+Theorem C17_e2s : forall h, wf_from false false h = true ->
+  Forall2 seteq (sobs_from [] sp0 (trans e2s_step e2s0 h)) (sobs_from [] sp0 h)
+  /\ wf_from false false (trans e2s_step e2s0 h) = true.
+Proof. exact (fun h => e2s_ok h false false e2s0 sp0 sp0 R_init eq_refl eq_refl empty_nil). Qed.
+Print Assumptions C17_e2s.
+
 (* the correspondence compares observations as lists of tag SETS *)
 Theorem C17_obs_eqb : forall a b, obs_eqb a b = true <-> obs_equiv a b.
 Proof. exact obs_eqb_spec. Qed.
@@ -75,4 +90,19 @@ Example C17_example :
   /\ reporter_scan a h = [[]; [0]; [0]; [0]; [0; 2]; [2; 1]; [2; 1]; [2; 1; 0]; [0]; [0; 2]; [0; 2]; [0]; []; [2]; [2]; []]
   /\ leaves_obs a h = [[[0]; [2; 1]; [0; 2]; [2]]; [[0]; [2; 1]; [0; 2]; [2]]; [[0]; [2; 1]; [0; 2]; [2]]]
   /\ clean_leaves a = [true; true; true].
+Proof. vm_compute. repeat split. Qed.
+
+(* non-vacuity, before any startTestRun: tags() on a fresh ExtendedToStreamDecorator, the run started
+   implicitly by the first test (startTestRun reaches the wrapped result, the tags stay), remove and
+   re-add in one test, a later explicit startTestRun resets *)
+Example C17_example_prestart :
+  let a := E2S (TFR (Leaf false)) in
+  let h := [Tags ([0], []); StopTest; StartTest; Tags ([], [0]); Tags ([0; 1], []); Outcome; StopTest;
+            Outcome; StopTest; StartRun; StartTest; Outcome; StopTest] in
+  wf_from false false h = true
+  /\ reporter_scan a h = [[0]; [0]; [0]; []; [0; 1]; [0; 1]; [0]; [0]; [0]; []; []; []; []]
+  /\ trans e2s_step e2s0 h = [StartRun; Tags ([0; 1], []); StartTest; Outcome; StopTest; Tags ([], [0; 1]);
+                               Tags ([0], []); StartTest; Outcome; StopTest; Tags ([], [0]);
+                               StartRun; Tags ([], []); StartTest; Outcome; StopTest; Tags ([], [])]
+  /\ leaves_obs a h = [[[0; 1]; [0]; []]; [[0; 1]; [0]; []]].
 Proof. vm_compute. repeat split. Qed.
